@@ -55,6 +55,14 @@
 //! (through its VAR_ACCESS path) and a program-level RETAIN variable (storage API) without a scan
 //! cycle, so that [cycle,power,cold,power] and [cycle,power,operator-write,power] (retained data
 //! changed since the last save without any cycle) are inside the quick bound.
+//! Families store-explicit / store-every-cycle put every public way of SAVING right after every
+//! public way of CHANGING retained data without a scan cycle: `save` (explicit save_retain_store(),
+//! = what the resource loop calls at stop), the save half of `power`, the periodic save inside
+//! execute_cycle (store interval 0 = every executed cycle), `reboot` (power loss: new process +
+//! load without any save) x {cycle, warm, cold, access-path-write, storage-write, mesh-write}. The
+//! model keeps the list of moments at which a save must have reached the file; after `power` a
+//! retained variable must hold its pre-power value, after `reboot` the last flushed value (or,
+//! leniently, the current one). The engine never calls mark_retain_dirty() itself.
 //! Left out of the alphabet: `restart_with_retain(Cold)` / the resource loop's
 //! "restart then load_retain_store" (whether a cold start with a retain file present must ignore
 //! the file is not derivable from the statement); array/struct initialisers (not supported by
@@ -391,6 +399,15 @@ enum Ev {
     /// operator write: a recognisable value is put into a RETAIN global (through its VAR_ACCESS
     /// path) and into a program-level RETAIN variable (storage API) WITHOUT a scan cycle
     OpWrite,
+    /// explicit `Runtime::save_retain_store()` (what the resource loop calls at stop and what tools
+    /// call), without a power cycle
+    Save,
+    /// power loss: brand-new runtime on the same retain file + load, WITHOUT a save of the old one
+    Reboot,
+    /// write a recognisable value into retained (and one non-retained) variables without a scan
+    /// cycle, through one public path: 0 = VAR_ACCESS (`write_access`), 1 = storage API
+    /// (`storage_mut().set_global/set_instance_var`), 2 = mesh update (`apply_mesh_updates`)
+    WriteVia(u8),
 }
 
 impl Ev {
@@ -404,6 +421,11 @@ impl Ev {
             Ev::Fault => "fault".into(),
             Ev::AccessWrite => "access-write".into(),
             Ev::OpWrite => "operator-write".into(),
+            Ev::Save => "save".into(),
+            Ev::Reboot => "reboot".into(),
+            Ev::WriteVia(0) => "access-path-write".into(),
+            Ev::WriteVia(1) => "storage-write".into(),
+            Ev::WriteVia(_) => "mesh-write".into(),
         }
     }
     fn parse(s: &str) -> Option<Ev> {
@@ -417,6 +439,11 @@ impl Ev {
             "fault" => Ev::Fault,
             "access-write" => Ev::AccessWrite,
             "operator-write" => Ev::OpWrite,
+            "save" => Ev::Save,
+            "reboot" => Ev::Reboot,
+            "access-path-write" => Ev::WriteVia(0),
+            "storage-write" => Ev::WriteVia(1),
+            "mesh-write" => Ev::WriteVia(2),
             _ => return None,
         })
     }
@@ -441,6 +468,13 @@ struct Family {
     access: Vec<(String, String, String)>,
     /// operator-write targets: (variable path, access path to write through | None = storage API)
     op_writes: Vec<(String, Option<String>)>,
+    /// targets of `WriteVia(k)`: (k, variable path, access name for k = 0, value)
+    via_writes: Vec<(u8, String, Option<String>, i16)>,
+    /// save interval the retain store is configured with (ms); 0 = the periodic save inside
+    /// execute_cycle fires in every executed cycle, 1000 = it never fires within the bound
+    store_interval_ms: i64,
+    /// history depth (quick, thorough) if different from the engine default
+    depth: Option<(usize, usize)>,
     events: Vec<Ev>,
 }
 
@@ -719,6 +753,9 @@ fn family_matrix(quals: &[Qual]) -> Family {
         tasks: vec!["T20".into()],
         access: vec![("A_cr".into(), "cfg_r_int".into(), "access:global-var".into())],
         op_writes: vec![("cfg_r_int".into(), Some("A_cr".into())), ("P1.pr_r_int".into(), None)],
+        via_writes: vec![],
+        store_interval_ms: 1000,
+        depth: None,
         events: vec![Ev::Cycle, Ev::Write(0), Ev::Write(1), Ev::Warm, Ev::Cold, Ev::Power, Ev::Fault, Ev::OpWrite],
     }
 }
@@ -842,6 +879,9 @@ END_CONFIGURATION
             ("A_gc".into(), "gc".into(), "access:global-var".into()),
         ],
         op_writes: vec![],
+        via_writes: vec![],
+        store_interval_ms: 1000,
+        depth: None,
         events: vec![Ev::Cycle, Ev::Write(0), Ev::Write(1), Ev::Warm, Ev::Cold, Ev::Power, Ev::Fault],
     }
 }
@@ -894,6 +934,9 @@ END_CONFIGURATION
         tasks: vec![],
         access: vec![],
         op_writes: vec![],
+        via_writes: vec![],
+        store_interval_ms: 1000,
+        depth: None,
         // no power cycle here: the loss of program-level RETAIN in a power cycle is the matrix family's finding
         events: vec![Ev::Cycle, Ev::Warm, Ev::Cold],
     }
@@ -953,6 +996,9 @@ END_PROGRAM
         tasks: vec!["Ev".into()],
         access: vec![],
         op_writes: vec![],
+        via_writes: vec![],
+        store_interval_ms: 1000,
+        depth: None,
         events: vec![Ev::Cycle, Ev::Warm, Ev::Cold, Ev::Power],
     }
 }
@@ -997,7 +1043,123 @@ END_PROGRAM
         tasks: vec![],
         access: vec![],
         op_writes: vec![],
+        via_writes: vec![],
+        store_interval_ms: 1000,
+        depth: None,
         events: vec![Ev::Cycle, Ev::Warm, Ev::Cold, Ev::Power],
+    }
+}
+
+/// F "store-*": every public way of SAVING retained data right after every public way of CHANGING
+/// it without a scan cycle. Small on purpose (what is saved does not depend on the variable type,
+/// the matrix family covers that): the alphabet is the point.
+///   saving:   explicit save_retain_store() (`save`; also the first half of `power`, and what the
+///             resource loop calls at stop), the periodic save inside execute_cycle (interval 0 =
+///             every executed cycle, family store-every-cycle), and no save at all (`reboot`)
+///   changing: cycle, warm restart, cold restart, VAR_ACCESS write, storage-API write, mesh update
+/// The engine never calls mark_retain_dirty(). A debugger write (DebugControl::enqueue_*) is not in
+/// the alphabet: it is applied at the start of the NEXT cycle, i.e. it is a change *with* a cycle,
+/// and whether a queued write survives a restart is outside the statement.
+fn family_store(every_cycle: bool, persistent: bool) -> Family {
+    let pq = if persistent { Qual::Persistent } else { Qual::Retain };
+    let src = format!(
+        r#"CONFIGURATION Conf
+VAR_GLOBAL RETAIN
+    g_r : INT := 11;
+    g_m : INT := 31;
+    g_ra : ARRAY[0..1] OF INT;
+END_VAR
+VAR_GLOBAL{pk}
+    g_p : INT := 51;
+END_VAR
+VAR_GLOBAL
+    g_u : INT := 71;
+END_VAR
+VAR_GLOBAL NON_RETAIN
+    g_n : INT := 91;
+END_VAR
+PROGRAM P1 : Main;
+VAR_ACCESS
+    A_gr : g_r : INT READ_WRITE;
+    A_pr : P1.p_r : INT READ_WRITE;
+END_VAR
+END_CONFIGURATION
+
+PROGRAM Main
+VAR_EXTERNAL
+    g_r : INT;
+    g_m : INT;
+    g_ra : ARRAY[0..1] OF INT;
+    g_p : INT;
+    g_u : INT;
+    g_n : INT;
+END_VAR
+VAR RETAIN
+    p_r : INT := 111;
+    p_s : INT := 131;
+END_VAR
+VAR{pk}
+    p_p : STRING := 'p';
+END_VAR
+VAR
+    p_u : INT := 151;
+    obs_main : INT;
+END_VAR
+g_r := g_r + 1;
+g_m := g_m + 1;
+g_ra[0] := g_ra[0] + 1; g_ra[1] := g_ra[1] + 2;
+g_p := g_p + 1;
+g_u := g_u + 1;
+g_n := g_n + 1;
+p_r := p_r + 1;
+p_s := p_s + 1;
+p_p := CONCAT(p_p, 'x');
+p_u := p_u + 1;
+obs_main := obs_main + 1;
+END_PROGRAM
+"#,
+        pk = pq.kw()
+    );
+    let k = Class::Keep;
+    let r = Class::Reset;
+    let mut vars = vec![
+        plain("g_r".into(), k, "global", "cfg", Qual::Retain, Ty::Int, MVal::I(11), 0),
+        plain("g_m".into(), k, "global", "cfg", Qual::Retain, Ty::Int, MVal::I(31), 0),
+        plain("g_ra".into(), k, "global", "cfg", Qual::Retain, Ty::Arr, Ty::Arr.init(0).0, 0),
+        plain("g_p".into(), k, "global", "cfg", pq, Ty::Int, MVal::I(51), 0),
+        plain("g_u".into(), r, "global", "cfg", Qual::None, Ty::Int, MVal::I(71), 0),
+        plain("g_n".into(), r, "global", "cfg", Qual::NonRetain, Ty::Int, MVal::I(91), 0),
+        plain("P1.p_r".into(), k, "program", "prog", Qual::Retain, Ty::Int, MVal::I(111), 0),
+        plain("P1.p_s".into(), k, "program", "prog", Qual::Retain, Ty::Int, MVal::I(131), 0),
+        plain("P1.p_p".into(), k, "program", "prog", pq, Ty::Str, MVal::S("p".into()), 0),
+        plain("P1.p_u".into(), r, "program", "prog", Qual::None, Ty::Int, MVal::I(151), 0),
+    ];
+    vars.push(special("P1.obs_main", "program", "prog", Ty::Int, MVal::I(0), Upd::Step, 0));
+    Family {
+        name: if every_cycle { "store-every-cycle" } else { "store-explicit" },
+        source: src,
+        vars,
+        units: vec![Unit { name: "P1:Main".into(), observer: Some("P1.obs_main".into()), follows: None, always: true }],
+        in_bits: vec![],
+        in_words: vec![],
+        tasks: vec![],
+        access: vec![
+            ("A_gr".into(), "g_r".into(), "access:global-var".into()),
+            ("A_pr".into(), "P1.p_r".into(), "access:program-var".into()),
+        ],
+        op_writes: vec![],
+        via_writes: vec![
+            (0, "g_r".into(), Some("A_gr".into()), 7777),
+            (0, "P1.p_r".into(), Some("A_pr".into()), 7777),
+            (1, "g_p".into(), None, 8888),
+            (1, "P1.p_s".into(), None, 8888),
+            (1, "g_u".into(), None, 8888),
+            (2, "g_m".into(), None, 6666),
+            (2, "g_n".into(), None, 6666),
+        ],
+        store_interval_ms: if every_cycle { 0 } else { 1000 },
+        depth: Some((4, 7)),
+        events: vec![Ev::Cycle, Ev::Warm, Ev::Cold, Ev::Save, Ev::Power, Ev::Reboot, Ev::WriteVia(0), Ev::WriteVia(1), Ev::WriteVia(2)],
     }
 }
 
@@ -1009,11 +1171,13 @@ fn family_by_name(name: &str, persistent: bool) -> Option<Family> {
         "config-init" => family_config_init(),
         "single" => family_single(),
         "memory" => family_memory(),
+        "store-explicit" => family_store(false, persistent),
+        "store-every-cycle" => family_store(true, persistent),
         _ => return None,
     })
 }
 
-const FAMILY_NAMES: [&str; 5] = ["matrix", "bindings", "config-init", "single", "memory"];
+const FAMILY_NAMES: [&str; 7] = ["matrix", "bindings", "config-init", "single", "memory", "store-explicit", "store-every-cycle"];
 
 // ------------------------------------------------------------------------------------------
 // observation of the real runtime (by NAME / structural path, never by instance id)
@@ -1304,8 +1468,8 @@ fn build(fam: &Family) -> Result<TestHarness, String> {
 
 /// The retain store is configured ONCE, when a runtime is created, on a path that stays the same
 /// for the whole history (as the launcher does: set_retain_store before the first cycle).
-fn configure_store(h: &mut TestHarness, path: &std::path::Path) {
-    h.runtime_mut().set_retain_store(Some(Box::new(FileRetainStore::new(path))), Some(Duration::from_millis(1000)));
+fn configure_store(fam: &Family, h: &mut TestHarness, path: &std::path::Path) {
+    h.runtime_mut().set_retain_store(Some(Box::new(FileRetainStore::new(path))), Some(Duration::from_millis(fam.store_interval_ms)));
 }
 
 struct RemoveOnDrop(PathBuf);
@@ -1355,9 +1519,11 @@ fn run_trace(fam: &Family, events: &[Ev], report_from: usize) -> TraceOut {
         }
     };
     let store = RemoveOnDrop(scratch_file());
-    configure_store(&mut h, &store.0);
-    // what the previous power cycle of this history saved (model values), to name stale loads
-    let mut last_saved: Option<BTreeMap<String, MVal>> = None;
+    configure_store(fam, &mut h, &store.0);
+    // reference model of the retain FILE: the variable values at every moment a save must have
+    // reached the store (explicit save, the save of a power cycle, the periodic save of a cycle
+    // when the interval is 0); the last entry is what a new process must load
+    let mut flushes: Vec<BTreeMap<String, MVal>> = Vec::new();
     let mut model: BTreeMap<String, MVal> = fam.vars.iter().map(|v| (v.path.clone(), v.init.clone())).collect();
     let s0 = snapshot(fam, &h);
     if s0.vars != model {
@@ -1446,6 +1612,57 @@ fn run_trace(fam: &Family, events: &[Ev], report_from: usize) -> TraceOut {
                 }
                 snap = snapshot(fam, &h);
             }
+            Ev::Save => {
+                // the explicit save, exactly as the resource loop calls it at stop; never preceded by
+                // a mark_retain_dirty() of the engine's own
+                match catch(|| h.runtime_mut().save_retain_store()) {
+                    Ok(Ok(())) => {}
+                    Ok(Err(e)) => finds.push(Finding { sig: format!("C09/power-cycle/save-error/{}", variant_name(&format!("{e:?}"))), what: format!("save_retain_store fails: {e:?}"), step: i }),
+                    Err(p) => finds.push(Finding { sig: format!("C09/panic/save/{}", norm_msg(&p)), what: format!("save_retain_store panicked: {p}"), step: i }),
+                }
+                flushes.push(model.clone());
+                snap = snapshot(fam, &h);
+            }
+            Ev::WriteVia(k) => {
+                for (_, path, name, val) in fam.via_writes.iter().filter(|w| w.0 == k) {
+                    let val = *val;
+                    let r = catch(|| -> Result<(), String> {
+                        let rt = h.runtime_mut();
+                        match k {
+                            0 => {
+                                let name = name.as_deref().unwrap_or("");
+                                rt.write_access(name, Value::Int(val)).map_err(|e| format!("write_access({name}) fails with {e:?}"))
+                            }
+                            1 => match path.split_once('.') {
+                                Some((prog, var)) => {
+                                    let id = match rt.storage().get_global(prog) {
+                                        Some(Value::Instance(id)) => *id,
+                                        _ => return Err(format!("program instance {prog} not found")),
+                                    };
+                                    if rt.storage_mut().set_instance_var(id, var, Value::Int(val)) { Ok(()) } else { Err(format!("instance of {prog} vanished")) }
+                                }
+                                None => {
+                                    rt.storage_mut().set_global(path.as_str(), Value::Int(val));
+                                    Ok(())
+                                }
+                            },
+                            _ => {
+                                let mut updates = indexmap::IndexMap::new();
+                                updates.insert(smol_str::SmolStr::new(path), Value::Int(val));
+                                rt.apply_mesh_updates(&updates);
+                                Ok(())
+                            }
+                        }
+                    });
+                    match r {
+                        Ok(Ok(())) => {}
+                        Ok(Err(e)) => anomaly(&mut finds, &mut out.machinery, format!("C09/binding/{}", if path.contains('.') { "access:program-var" } else { "access:global-var" }), format!("{} of {path}: {e}", ev.name())),
+                        Err(p) => finds.push(Finding { sig: format!("C09/panic/{}/{}", ev.name(), norm_msg(&p)), what: format!("{} of {path} panicked: {p}", ev.name()), step: i }),
+                    }
+                    model.insert(path.clone(), MVal::I(val as i128));
+                }
+                snap = snapshot(fam, &h);
+            }
             Ev::AccessWrite => {
                 for (name, target, kind) in &fam.access {
                     let val: i16 = 1000; // the same sentinel in every trace (restarted and fresh runs are compared)
@@ -1526,6 +1743,10 @@ fn run_trace(fam: &Family, events: &[Ev], report_from: usize) -> TraceOut {
                             apply_update(fam, &mut model, j);
                         }
                     }
+                    if fam.store_interval_ms == 0 {
+                        // interval 0: the periodic save inside execute_cycle fires in every executed cycle
+                        flushes.push(model.clone());
+                    }
                     // outputs / memory: image after the cycle equals the live variable
                     for v in &fam.vars {
                         let (addr, img) = if let Some(a) = &v.out_addr {
@@ -1544,13 +1765,18 @@ fn run_trace(fam: &Family, events: &[Ev], report_from: usize) -> TraceOut {
                     }
                 }
             }
-            Ev::Warm | Ev::Cold | Ev::Power => {
+            Ev::Warm | Ev::Cold | Ev::Power | Ev::Reboot => {
                 let pre = model.clone();
                 let clause = match ev {
                     Ev::Warm => "warm",
                     Ev::Cold => "cold",
-                    _ => "power-cycle",
+                    Ev::Power => "power-cycle",
+                    _ => "power-loss",
                 };
+                if ev == Ev::Power {
+                    // the save of an orderly power cycle must reach the store with the current values
+                    flushes.push(pre.clone());
+                }
                 let was_faulted = h.runtime().faulted();
                 let mut failed: Option<(String, String)> = None;
                 match ev {
@@ -1568,10 +1794,12 @@ fn run_trace(fam: &Family, events: &[Ev], report_from: usize) -> TraceOut {
                         // the store on the SAME path, then load
                         let path = store.0.clone();
                         let r = catch(|| -> Result<TestHarness, (String, String)> {
-                            let rt = h.runtime_mut();
-                            rt.save_retain_store().map_err(|e| (format!("C09/power-cycle/save-error/{}", variant_name(&format!("{e:?}"))), format!("save_retain_store fails: {e:?}")))?;
+                            if ev == Ev::Power {
+                                let rt = h.runtime_mut();
+                                rt.save_retain_store().map_err(|e| (format!("C09/power-cycle/save-error/{}", variant_name(&format!("{e:?}"))), format!("save_retain_store fails: {e:?}")))?;
+                            }
                             let mut h2 = TestHarness::from_source(&fam.source).map_err(|e| ("machinery".to_string(), format!("rebuild failed: {e}")))?;
-                            configure_store(&mut h2, &path);
+                            configure_store(fam, &mut h2, &path);
                             let rt2 = h2.runtime_mut();
                             rt2.load_retain_store().map_err(|e| (format!("C09/power-cycle/load-error/{}", variant_name(&format!("{e:?}"))), format!("load_retain_store fails: {e:?}")))?;
                             Ok(h2)
@@ -1620,6 +1848,13 @@ fn run_trace(fam: &Family, events: &[Ev], report_from: usize) -> TraceOut {
                                 a
                             }
                         };
+                        if ev == Ev::Reboot && class != Class::Reset {
+                            // power loss: the new process must see what the last save flushed (nothing
+                            // if there never was one); values changed since then may be lost
+                            // ("unflushed changes may be lost", docs/specs/10-runtime.md 6.7) or kept
+                            let flushed = flushes.last().and_then(|m| m.get(&v.path)).cloned().unwrap_or_else(|| v.init.clone());
+                            allowed = vec![flushed, p.clone()];
+                        }
                         allowed.dedup();
                         if !is_init(&p) {
                             det.insert(j);
@@ -1661,9 +1896,10 @@ fn run_trace(fam: &Family, events: &[Ev], report_from: usize) -> TraceOut {
                             model.insert(v.path.clone(), real);
                             continue;
                         }
-                        let stale = ev == Ev::Power && real != p && last_saved.as_ref().and_then(|m| m.get(&v.path)) == Some(&real);
+                        let earlier = &flushes[..flushes.len().saturating_sub(1)];
+                        let stale = matches!(ev, Ev::Power | Ev::Reboot) && earlier.iter().any(|m| m.get(&v.path) == Some(&real));
                         let kind = match (ev, class) {
-                            (Ev::Power, _) if stale => "stale-snapshot",
+                            (Ev::Power | Ev::Reboot, _) if stale => "stale-snapshot",
                             (Ev::Cold, _) => if real == p { "kept" } else { "wrong-value" },
                             (_, Class::Keep) => if is_init(&real) { "lost" } else { "wrong-value" },
                             (_, Class::Reset) => if real == p { "kept-non-retain" } else { "wrong-value" },
@@ -1672,7 +1908,7 @@ fn run_trace(fam: &Family, events: &[Ev], report_from: usize) -> TraceOut {
                         mism.push((
                             format!("{clause}/{kind}"),
                             j,
-                            format!("{} ({}) is {} but must be {}; before: {}, declared initial: {}{}", v.path, v.feature(), show(&real), allowed.iter().map(show).collect::<Vec<_>>().join(" or "), show(&p), show(&v.init), if stale { " — this is the value saved by an EARLIER power cycle of the history: the save of this power cycle did not reach the store" } else { "" }),
+                            format!("{} ({}) is {} but must be {}; before: {}, declared initial: {}{}", v.path, v.feature(), show(&real), allowed.iter().map(show).collect::<Vec<_>>().join(" or "), show(&p), show(&v.init), if stale { " — this is the value written by an EARLIER save of the history: the last save did not reach the store" } else { "" }),
                         ));
                         // resynchronise: one defect is reported once along a trace
                         model.insert(v.path.clone(), real);
@@ -1687,9 +1923,6 @@ fn run_trace(fam: &Family, events: &[Ev], report_from: usize) -> TraceOut {
                     if ev == Ev::Cold && was_faulted {
                         out.stats.cold_with_fault_latched += 1;
                     }
-                    if ev == Ev::Power {
-                        last_saved = Some(pre.clone());
-                    }
                 }
                 last_disruption = Some(ev);
             }
@@ -1703,7 +1936,7 @@ fn run_trace(fam: &Family, events: &[Ev], report_from: usize) -> TraceOut {
             }
         };
         // (V) variables vs model after ordinary events
-        if !stop && !matches!(ev, Ev::Warm | Ev::Cold | Ev::Power) {
+        if !stop && !matches!(ev, Ev::Warm | Ev::Cold | Ev::Power | Ev::Reboot) {
             for (j, v) in fam.vars.iter().enumerate() {
                 let m = model.get(&v.path);
                 let r = snap.vars.get(&v.path);
@@ -2024,7 +2257,9 @@ pub fn run(ctx: &Ctx) -> EngineResult {
             stats.lock().unwrap().merge(&o.stats);
             x2::StepResult { key: o.key, violations: o.violations }
         };
-        let bfs = x2::bfs(max_depth, ctx.threads, stack, Some(deadline), &enabled, &eval);
+        let depth_override: Option<usize> = std::env::var("TV_C09_DEPTH").ok().and_then(|s| s.parse().ok());
+        let fam_depth = depth_override.unwrap_or_else(|| fam.depth.map(|d| ctx.tier.pick(d.0, d.1)).unwrap_or(max_depth));
+        let bfs = x2::bfs(fam_depth, ctx.threads, stack, Some(deadline), &enabled, &eval);
         let notes = notes.into_inner().unwrap();
         if let Some(n) = notes.first() {
             return machinery(format!("reference model / harness inconsistency ({} notes), first: {n}", notes.len()));
@@ -2043,6 +2278,7 @@ pub fn run(ctx: &Ctx) -> EngineResult {
         rep.set(&format!("family_{name}_states"), bfs.states);
         rep.set(&format!("family_{name}_transitions"), bfs.transitions);
         rep.set(&format!("family_{name}_depth_completed"), bfs.depth_completed as u64);
+        rep.set(&format!("family_{name}_depth_bound"), fam_depth as u64);
         rep.set(&format!("family_{name}_frontiers"), json!(bfs.frontier_sizes));
         rep.set(&format!("family_{name}_alphabet"), json!(fam.events.iter().map(|e| e.name()).collect::<Vec<_>>()));
         if bfs.capped {
